@@ -12,7 +12,7 @@ UNDECIDED_PATTERNS = (
 
 # the only diagnostics that are failed proof obligations; anything else is a tool/subset limit => exit 2
 VERIFICATION_FAILURES = (
-    "postcondition not satisfied", "precondition not satisfied", "assertion failed", "invariant not satisfied",
+    "postcondition not satisfied", "precondition not satisfied", "precondition not met", "assertion failed", "invariant not satisfied",
     "possible arithmetic underflow/overflow", "possible division by zero", "decreases not satisfied",
     "possible bit shift underflow/overflow", "could not prove termination", "assertion failure",
     "unable to prove", "cannot show invariant", "loop invariant", "failed to prove", "may panic",
